@@ -1,0 +1,10 @@
+//go:build verif
+
+package security
+
+import "sync/atomic"
+
+// VerifSetSessionCounter sets the counter the next minted session identifier is numbered from, so a
+// check can make a server in the same process hand out an identifier it chooses (what a hostile
+// server does at will: the identifier is the server's to pick).
+func VerifSetSessionCounter(v uint64) { atomic.StoreUint64(&sessionCounter, v) }
